@@ -54,6 +54,16 @@ Example ex_bad_overlap : history_ok
   [LCall 0 OpRebuild; LCall 1 OpRebuild; LStart 0; LStart 1] = false.
 Proof. vm_compute. reflexivity. Qed.
 
+(* no_stale_join is not vacuous: after build 0's waiters were released, a later
+   Rebuild call exists and returns build 1 *)
+Definition ex_actions2 : list action :=
+  [ACall OpRebuild; AStep 0%nat; AStep 0%nat; AStep 0%nat; AStep 0%nat; AStep 0%nat; AStep 0%nat; AStep 0%nat;
+   AEdit; ACall OpRebuild; AStep 1%nat; AStep 1%nat; AStep 1%nat; AStep 1%nat; AStep 1%nat; AStep 1%nat; AStep 1%nat].
+Example ex_later_call_gets_later_build :
+  option_map (fun x => (b_done (blds (fst x) 0%nat), t_pc (thr (fst x) 1%nat))) (exec_all init ex_actions2)
+  = Some (true, PRet (RvBuild 1 false (Some 1%nat))).
+Proof. vm_compute. reflexivity. Qed.
+
 (* ---- plugin callbacks: a concrete build of the model ---- *)
 From V Require Import C20.PluginSpec C20.Plugin.
 Definition ex_build : list bact :=
